@@ -7,6 +7,7 @@ genesis carries the newest only (recorded finding).  Proved here: the round trip
 genesis carries, for any store; the exact fate of a latest-only kind.
 -/
 import Canine.Genesis.Model
+import Canine.Proofs.GenesisModules
 namespace Canine.Genesis
 
 variable {V : Type}
@@ -113,5 +114,509 @@ theorem C19_latest_only_loses_history (keyOf : V → String) (m : AMap String V)
 /-- non-vacuity: a two-record store of names keyed by "name.tld" round-trips -/
 example : importKind (fun (v : String × Nat) => v.1 ++ ".jkl") (exportKind [("a.jkl", ("a", 1)), ("b.jkl", ("b", 2))])
     = [("a.jkl", ("a", 1)), ("b.jkl", ("b", 2))] := by decide
+
+
+/-!
+# C19 on the concrete module models
+
+`Canine/Genesis/Modules.lean` models `ExportGenesis`, `Validate` and `InitGenesis` of each custom module
+over the module's own executable state; the theorems below are about those functions.
+
+What "the same module state" means.  A store of the chain is a set of (raw key ↦ value) pairs; the
+models keep it as an association list whose *order of bindings* is an artefact (no handler or query
+depends on it: lookups go by key, listings sort by raw key).  `ExportGenesis` lists a store in
+iterator order, so the imported state holds the same bindings in iterator order:
+
+* `C19_M_roundtrip`         `initGenesis (blank s) (exportGenesis s) = storeOrdered s` — an explicit state:
+                            `s` with every store listed in iterator order (`inStoreOrder`), everything else equal;
+* `C19_M_roundtrip_records` spelled out: every store answers every key as before (`AMap.get … k`, extensional
+                            equality), is a permutation of the old one, and all other fields are equal;
+* `C19_M_export_idempotent` the second export is *equal* (as lists, in order) to the first;
+* `C19_M_validate_accepts_export`, `C19_M_queries_preserved` (every query of Canine/Query/M.lean).
+
+Hypotheses: `M.Inv s` — keys distinct and every record under the key built from its own fields (what
+every `Set…` maintains) — and, for the stores whose key has several '/'-separated fields,
+`M.RawInv s`: distinct decoded keys have distinct raw keys (the model keeps decoded keys; two
+records with one raw key would be one record on the chain).
+-/
+
+/-! ## x/oracle -/
+
+theorem C19_oracle_roundtrip (s : Canine.Oracle.State) (h : Oracle.Inv s) :
+    Oracle.initGenesis (Oracle.blank s) (Oracle.exportGenesis s) = Oracle.storeOrdered s :=
+  Oracle.roundtrip_eq s h
+
+theorem C19_oracle_roundtrip_records (s : Canine.Oracle.State) (h : Oracle.Inv s) :
+    let s' := Oracle.initGenesis (Oracle.blank s) (Oracle.exportGenesis s)
+    (∀ n, AMap.get s'.feeds n = AMap.get s.feeds n) ∧ s'.feeds.Perm s.feeds ∧
+      s'.bank = s.bank ∧ s'.moduleAcc = s.moduleAcc ∧ s'.deposit = s.deposit ∧ s'.blocked = s.blocked := by
+  intro s'
+  have e : s' = Oracle.storeOrdered s := C19_oracle_roundtrip s h
+  rw [e]; unfold Oracle.storeOrdered
+  exact ⟨get_inStoreOrder _ h.1, inStoreOrder_perm _ _, rfl, rfl, rfl, rfl⟩
+
+/-- a state whose store is already listed in iterator order comes back identical -/
+theorem C19_oracle_roundtrip_of_ordered (s : Canine.Oracle.State) (h : Oracle.Inv s)
+    (ho : inStoreOrder Oracle.feedRaw s.feeds = s.feeds) :
+    Oracle.initGenesis (Oracle.blank s) (Oracle.exportGenesis s) = s := by
+  rw [C19_oracle_roundtrip s h, Oracle.storeOrdered, ho]
+
+theorem C19_oracle_export_idempotent (s : Canine.Oracle.State) (h : Oracle.Inv s) :
+    Oracle.exportGenesis (Oracle.initGenesis (Oracle.blank s) (Oracle.exportGenesis s)) = Oracle.exportGenesis s := by
+  rw [C19_oracle_roundtrip s h, Oracle.export_storeOrdered s h]
+
+theorem C19_oracle_validate_accepts_export (s : Canine.Oracle.State) (h : Oracle.Inv s) :
+    Oracle.validate (Oracle.exportGenesis s) = true := Oracle.validate_export s h
+
+theorem C19_oracle_queries_preserved (s : Canine.Oracle.State) (h : Oracle.Inv s) (q : Canine.Oracle.Query.Q) :
+    Canine.Oracle.Query.run (Oracle.initGenesis (Oracle.blank s) (Oracle.exportGenesis s)) q =
+      Canine.Oracle.Query.run s q := by
+  rw [C19_oracle_roundtrip s h, Oracle.run_storeOrdered s h q]
+
+/-- a history of oracle messages (failed messages leave the state as it was) -/
+def Oracle.runOps (s : Canine.Oracle.State) : List (Int × Canine.Oracle.Op) → Canine.Oracle.State
+  | [] => s
+  | (now, op) :: rest => Oracle.runOps ((Canine.Oracle.step s now op).getD s) rest
+
+/-- the oracle invariant holds along every history from a state where it holds (e.g. no feeds) -/
+theorem C19_oracle_inv_along_histories (ops : List (Int × Canine.Oracle.Op)) :
+    ∀ s, Oracle.Inv s → Oracle.Inv (Oracle.runOps s ops) := by
+  induction ops with
+  | nil => intro s h; exact h
+  | cons x t ih =>
+    intro s h
+    obtain ⟨now, op⟩ := x
+    apply ih
+    cases hs : Canine.Oracle.step s now op with
+    | none => exact h
+    | some s' => exact Oracle.inv_step s s' now op h hs
+
+/-! ## x/filetree -/
+
+theorem C19_filetree_roundtrip (s : Canine.Filetree.State) (h : Filetree.Inv s) :
+    Filetree.initGenesis (Filetree.blank s) (Filetree.exportGenesis s) = Filetree.storeOrdered s :=
+  Filetree.roundtrip_eq s h
+
+theorem C19_filetree_roundtrip_records (s : Canine.Filetree.State) (h : Filetree.Inv s) :
+    let s' := Filetree.initGenesis (Filetree.blank s) (Filetree.exportGenesis s)
+    (∀ k, AMap.get s'.files k = AMap.get s.files k) ∧ s'.files.Perm s.files ∧
+      (∀ a, AMap.get s'.pubkeys a = AMap.get s.pubkeys a) ∧ s'.pubkeys.Perm s.pubkeys := by
+  intro s'
+  have e : s' = Filetree.storeOrdered s := C19_filetree_roundtrip s h
+  rw [e]; unfold Filetree.storeOrdered
+  exact ⟨get_inStoreOrder _ h.1, inStoreOrder_perm _ _, get_inStoreOrder _ h.2.2, inStoreOrder_perm _ _⟩
+
+theorem C19_filetree_export_idempotent (s : Canine.Filetree.State) (h : Filetree.Inv s) (hr : Filetree.RawInv s) :
+    Filetree.exportGenesis (Filetree.initGenesis (Filetree.blank s) (Filetree.exportGenesis s)) =
+      Filetree.exportGenesis s := by
+  rw [C19_filetree_roundtrip s h, Filetree.export_storeOrdered s h hr]
+
+theorem C19_filetree_validate_accepts_export (s : Canine.Filetree.State) (h : Filetree.Inv s) (hr : Filetree.RawInv s) :
+    Filetree.validate (Filetree.exportGenesis s) = true := Filetree.validate_export s h hr
+
+theorem C19_filetree_queries_preserved (s : Canine.Filetree.State) (h : Filetree.Inv s) (hr : Filetree.RawInv s)
+    (q : Canine.Filetree.Query.Q) :
+    Canine.Filetree.Query.run (Filetree.initGenesis (Filetree.blank s) (Filetree.exportGenesis s)) q =
+      Canine.Filetree.Query.run s q := by
+  rw [C19_filetree_roundtrip s h, Filetree.run_storeOrdered s h hr q]
+
+/-- the filetree invariant holds along every history of messages from the empty tree (the `Keyed`
+half is C10's `C10_storeInv_along_histories`; key distinctness is new here) -/
+theorem C19_filetree_inv_along_histories (H : String → String) (ops : List Canine.Filetree.Op) :
+    Filetree.Inv (Filetree.runOps H { files := [], pubkeys := [] } ops) :=
+  Filetree.inv_run H ops _ Filetree.inv_empty
+
+/-! ## x/notifications -/
+
+theorem C19_notifications_roundtrip (s : Canine.Notif.State) (h : Notif.Inv s) :
+    Notif.initGenesis (Notif.blank s) (Notif.exportGenesis s) = Notif.storeOrdered s :=
+  Notif.roundtrip_eq s h
+
+/-- the one store holds the same records: every key answers as before (notification keys and
+block-list keys alike) -/
+theorem C19_notifications_roundtrip_records (s : Canine.Notif.State) (h : Notif.Inv s) :
+    let s' := Notif.initGenesis (Notif.blank s) (Notif.exportGenesis s)
+    (∀ k, AMap.get s'.store k = AMap.get s.store k) ∧ s'.store.Perm s.store := by
+  intro s'
+  have e : s' = Notif.storeOrdered s := C19_notifications_roundtrip s h
+  rw [e]
+  exact ⟨fun k => (get_eq_of_perm (Notif.storeOrdered_perm s).symm h.1 k).symm, Notif.storeOrdered_perm s⟩
+
+theorem C19_notifications_export_idempotent (s : Canine.Notif.State) (h : Notif.Inv s) (hr : Notif.RawInv s) :
+    Notif.exportGenesis (Notif.initGenesis (Notif.blank s) (Notif.exportGenesis s)) = Notif.exportGenesis s := by
+  rw [C19_notifications_roundtrip s h, Notif.export_storeOrdered s hr]
+
+theorem C19_notifications_validate_accepts_export (s : Canine.Notif.State) (h : Notif.Inv s) (hr : Notif.RawInv s) :
+    Notif.validate (Notif.exportGenesis s) = true := Notif.validate_export s h hr
+
+theorem C19_notifications_queries_preserved (s : Canine.Notif.State) (h : Notif.Inv s) (hr : Notif.RawInv s)
+    (q : Canine.Notif.Query.Q) :
+    Canine.Notif.Query.run (Notif.initGenesis (Notif.blank s) (Notif.exportGenesis s)) q =
+      Canine.Notif.Query.run s q := by
+  rw [C19_notifications_roundtrip s h]
+  exact Notif.run_congr s _ (Notif.entries_storeOrdered s hr) q
+
+/-- in particular the block list survives: a blocked sender is still blocked -/
+theorem C19_notifications_blocklist_preserved (s : Canine.Notif.State) (h : Notif.Inv s) (owner sender : String) :
+    Canine.Notif.isBlocked (Notif.initGenesis (Notif.blank s) (Notif.exportGenesis s)) owner sender =
+      Canine.Notif.isBlocked s owner sender := by
+  simp only [Canine.Notif.isBlocked, AMap.contains, (C19_notifications_roundtrip_records s h).1]
+
+/-- a history of notification messages (failed messages leave the state as it was) -/
+def Notif.runOps (s : Canine.Notif.State) : List (Int × Canine.Notif.Op) → Canine.Notif.State
+  | [] => s
+  | (now, op) :: rest => Notif.runOps (Canine.Notif.stepT s now op) rest
+
+/-- the notifications invariant holds along every history (as C18 proves for its own copy) -/
+theorem C19_notifications_inv_along_histories (ops : List (Int × Canine.Notif.Op)) :
+    ∀ s, Notif.Inv s → Notif.Inv (Notif.runOps s ops) := by
+  induction ops with
+  | nil => intro s h; exact h
+  | cons x t ih =>
+    intro s h
+    obtain ⟨now, op⟩ := x
+    apply ih
+    unfold Canine.Notif.stepT
+    cases hs : Canine.Notif.step s now op with
+    | none => exact h
+    | some s' => exact Notif.inv_step s s' now op h hs
+
+/-! ## x/rns -/
+
+theorem C19_rns_roundtrip (s : Canine.Rns.State) (h : Rns.Inv s) :
+    Rns.initGenesis (Rns.blank s) (Rns.exportGenesis s) = Rns.storeOrdered s :=
+  Rns.roundtrip_eq s h
+
+theorem C19_rns_roundtrip_records (s : Canine.Rns.State) (h : Rns.Inv s) :
+    let s' := Rns.initGenesis (Rns.blank s) (Rns.exportGenesis s)
+    (∀ k, AMap.get s'.names k = AMap.get s.names k) ∧ (∀ k, AMap.get s'.bids k = AMap.get s.bids k) ∧
+    (∀ k, AMap.get s'.forsale k = AMap.get s.forsale k) ∧ (∀ k, AMap.get s'.inits k = AMap.get s.inits k) ∧
+    (∀ k, AMap.get s'.primary k = AMap.get s.primary k) ∧
+    s'.names.Perm s.names ∧ s'.bids.Perm s.bids ∧ s'.forsale.Perm s.forsale ∧ s'.inits.Perm s.inits ∧
+    s'.primary.Perm s.primary ∧
+    s'.bank = s.bank ∧ s'.blocked = s.blocked ∧ s'.moduleAcc = s.moduleAcc ∧ s'.polAcc = s.polAcc ∧ s'.canon = s.canon := by
+  intro s'
+  have e : s' = Rns.storeOrdered s := C19_rns_roundtrip s h
+  rw [e]; unfold Rns.storeOrdered
+  exact ⟨get_inStoreOrder _ h.wfNames, get_inStoreOrder _ h.wfBids, get_inStoreOrder _ h.wfSale,
+    get_inStoreOrder _ h.wfInits, get_inStoreOrder _ h.wfPrimary, inStoreOrder_perm _ _, inStoreOrder_perm _ _,
+    inStoreOrder_perm _ _, inStoreOrder_perm _ _, inStoreOrder_perm _ _, rfl, rfl, rfl, rfl, rfl⟩
+
+theorem C19_rns_export_idempotent (s : Canine.Rns.State) (h : Rns.Inv s) :
+    Rns.exportGenesis (Rns.initGenesis (Rns.blank s) (Rns.exportGenesis s)) = Rns.exportGenesis s := by
+  rw [C19_rns_roundtrip s h, Rns.export_storeOrdered s h]
+
+theorem C19_rns_validate_accepts_export (s : Canine.Rns.State) (h : Rns.Inv s) :
+    Rns.validate (Rns.exportGenesis s) = true := Rns.validate_export s h
+
+theorem C19_rns_queries_preserved (s : Canine.Rns.State) (h : Rns.Inv s) (q : Canine.Rns.Query.Q) :
+    Canine.Rns.Query.run (Rns.initGenesis (Rns.blank s) (Rns.exportGenesis s)) q = Canine.Rns.Query.run s q := by
+  rw [C19_rns_roundtrip s h, Rns.run_storeOrdered s h q]
+
+/-- the rns invariant holds along every history of messages (`Canine.Rns.run`) from a state where it
+holds — in particular from any state whose five rns stores are empty -/
+theorem C19_rns_inv_along_histories (ops : List (Int × Canine.Rns.Op)) (s : Canine.Rns.State) (h : Rns.Inv s) :
+    Rns.Inv (Canine.Rns.run s ops) := Rns.inv_run ops s h
+
+theorem C19_rns_inv_blank (s : Canine.Rns.State) : Rns.Inv (Rns.blank s) :=
+  ⟨wf_nil', wf_nil', wf_nil', wf_nil', wf_nil', Keyed.nil, Keyed.nil, Keyed.nil⟩
+
+/-! ## x/jklmint — the honest statement: the last record survives, older ones do not -/
+
+/-- the concrete model meets the generic latest-only kind of Canine/Genesis/Model.lean: the imported
+emission-record store is `importKind … (exportLatest …)` of the old one at the key of the last height -/
+theorem C19_jklmint_is_latest_only (c : Mint.Store) (h : Mint.Inv c) :
+    (Mint.initGenesis (Mint.blank c) (Mint.exportGenesis c)).minted =
+      importKind (fun b : Mint.MintedBlock => Mint.mintedKey b.height)
+        (exportLatest c.minted (Mint.mintedKey c.height)) ∧
+    (Mint.initGenesis (Mint.blank c) (Mint.exportGenesis c)).params = c.params ∧
+    (Mint.initGenesis (Mint.blank c) (Mint.exportGenesis c)).height = c.height :=
+  ⟨Mint.minted_roundtrip c h, Mint.params_roundtrip c, Mint.height_roundtrip c⟩
+
+/-- the record of the last height is readable afterwards with the same value (and absent iff it was) -/
+theorem C19_jklmint_last_record_survives (c : Mint.Store) (h : Mint.Inv c) :
+    AMap.get (Mint.initGenesis (Mint.blank c) (Mint.exportGenesis c)).minted (Mint.mintedKey c.height) =
+      AMap.get c.minted (Mint.mintedKey c.height) := Mint.get_last c h
+
+/-- … through the generic theorem `C19_latest_record_survives` -/
+theorem C19_jklmint_last_record_survives' (c : Mint.Store) (h : Mint.Inv c) (b : Mint.MintedBlock)
+    (hg : AMap.get c.minted (Mint.mintedKey c.height) = some b) :
+    AMap.get (Mint.initGenesis (Mint.blank c) (Mint.exportGenesis c)).minted (Mint.mintedKey c.height) = some b := by
+  rw [(C19_jklmint_is_latest_only c h).1]
+  exact C19_latest_record_survives _ c.minted _ b hg (Mint.last_key h hg)
+
+/-- every other record is gone: the emission history is not carried (recorded finding) — through
+the generic theorems `C19_latest_only_loses_history` / `C19_latest_only_empty` -/
+theorem C19_jklmint_history_lost (c : Mint.Store) (h : Mint.Inv c) (k : String) (hk : k ≠ Mint.mintedKey c.height) :
+    AMap.get (Mint.initGenesis (Mint.blank c) (Mint.exportGenesis c)).minted k = none := by
+  rw [(C19_jklmint_is_latest_only c h).1]
+  cases hg : AMap.get c.minted (Mint.mintedKey c.height) with
+  | none => rw [C19_latest_only_empty _ c.minted _ hg]; rfl
+  | some b => exact C19_latest_only_loses_history _ c.minted _ k b hg (Mint.last_key h hg) hk
+
+/-- so the round trip is the identity exactly on the stores that hold nothing but the last record -/
+theorem C19_jklmint_roundtrip (c : Mint.Store) (h : Mint.Inv c)
+    (hl : c.minted = [] ∨ ∃ b, c.minted = [(Mint.mintedKey c.height, b)]) :
+    Mint.initGenesis (Mint.blank c) (Mint.exportGenesis c) = c := by
+  obtain ⟨e1, e2, e3⟩ := C19_jklmint_is_latest_only c h
+  have e1' : (Mint.initGenesis (Mint.blank c) (Mint.exportGenesis c)).minted = c.minted := by
+    rw [e1]
+    rcases hl with hl | ⟨b, hl⟩
+    · simp [hl, exportLatest, importKind]
+    · have hg : AMap.get c.minted (Mint.mintedKey c.height) = some b := by rw [hl]; simp [AMap.get]
+      rw [C19_latest_only_roundtrip _ c.minted _ b hg (Mint.last_key h hg), hl]
+  cases hc : Mint.initGenesis (Mint.blank c) (Mint.exportGenesis c) with
+  | mk p m ht =>
+    rw [hc] at e1' e2 e3
+    cases c
+    simp only at e1' e2 e3
+    subst e1' e2 e3; rfl
+
+theorem C19_jklmint_export_idempotent (c : Mint.Store) (h : Mint.Inv c) :
+    Mint.exportGenesis (Mint.initGenesis (Mint.blank c) (Mint.exportGenesis c)) = Mint.exportGenesis c :=
+  Mint.export_idem c h
+
+theorem C19_jklmint_validate_accepts_export (c : Mint.Store) (hp : Canine.Mint.validParams c.params) :
+    Mint.validate (Mint.exportGenesis c) = true := by
+  obtain ⟨h1, h2, h3, h4, h5, _⟩ := hp
+  simp [Mint.validate, Mint.exportGenesis, h1, h2, h3, h4, h5]
+
+/-- what the module's only reader of the records sees: the next block (`BlockMint` at height + 1)
+reads the same previous emission, so it mints the same amounts to the same accounts, from the
+imported store as from the original -/
+theorem C19_jklmint_next_block_preserved (c : Mint.Store) (h : Mint.Inv c) (bal : Canine.Mint.State) :
+    (Mint.beginBlock (Mint.initGenesis (Mint.blank c) (Mint.exportGenesis c)) bal).2 = (Mint.beginBlock c bal).2 := by
+  simp only [Mint.beginBlock, Mint.height_roundtrip c, Mint.params_roundtrip c, Mint.lastOf_roundtrip c h]
+
+/-- the carried record is keyed by the ABSOLUTE height it was minted at: a chain that restarts at any
+other height `h'` (an export `--for-zero-height` restarts at 0: the next block, height 1, reads
+"minted_at_0") does not find it — `BlockMint` then falls back to `params.TokensPerBlock`, i.e. the
+emission decay restarts -/
+theorem C19_jklmint_restart_at_other_height_forgets (c : Mint.Store) (h : Mint.Inv c) (h' : Int)
+    (hk : Mint.mintedKey h' ≠ Mint.mintedKey c.height) :
+    Mint.lastOf { Mint.initGenesis (Mint.blank c) (Mint.exportGenesis c) with height := h' } (h' + 1) = none := by
+  simp only [Mint.lastOf, Int.add_sub_cancel, Mint.get_other c h _ hk, Option.map_none]
+
+/-- the invariant is kept by every block (from a non-negative height) -/
+theorem C19_jklmint_inv_next_block (c : Mint.Store) (h : Mint.Inv c) (h0 : 0 ≤ c.height) (bal : Canine.Mint.State) :
+    Mint.Inv (Mint.beginBlock c bal).1 := by
+  simp only [Mint.beginBlock]
+  split
+  · refine ⟨AMap.wf_set _ _ h.wf, h.keyed.set _ _ rfl, ?_⟩
+    intro kv hm
+    rcases mem_set_cases _ _ _ kv hm with e | hm'
+    · rw [e]; show 0 < c.height + 1; omega
+    · exact h.pos kv hm'
+  · exact ⟨h.wf, h.keyed, h.pos⟩
+
+/-! ## x/storage -/
+
+theorem C19_storage_roundtrip (s : Canine.Storage.State) (h : Storage.Inv s) :
+    Storage.initGenesis (Storage.blank s) (Storage.exportGenesis s) = Storage.storeOrdered s :=
+  Storage.roundtrip_eq s h
+
+theorem C19_storage_roundtrip_records (s : Canine.Storage.State) (h : Storage.Inv s) :
+    let s' := Storage.initGenesis (Storage.blank s) (Storage.exportGenesis s)
+    (∀ k, AMap.get s'.files k = AMap.get s.files k) ∧ (∀ k, AMap.get s'.files2 k = AMap.get s.files2 k) ∧
+    (∀ k, AMap.get s'.proofs k = AMap.get s.proofs k) ∧ (∀ k, AMap.get s'.providers k = AMap.get s.providers k) ∧
+    (∀ k, AMap.get s'.payinfo k = AMap.get s.payinfo k) ∧ (∀ k, AMap.get s'.collateral k = AMap.get s.collateral k) ∧
+    (∀ k, AMap.get s'.gauges k = AMap.get s.gauges k) ∧ (∀ k, AMap.get s'.attests k = AMap.get s.attests k) ∧
+    (∀ k, AMap.get s'.reports k = AMap.get s.reports k) ∧
+    s'.files.Perm s.files ∧ s'.files2.Perm s.files2 ∧ s'.proofs.Perm s.proofs ∧ s'.providers.Perm s.providers ∧
+    s'.payinfo.Perm s.payinfo ∧ s'.collateral.Perm s.collateral ∧ s'.gauges.Perm s.gauges ∧
+    s'.attests.Perm s.attests ∧ s'.reports.Perm s.reports ∧
+    s'.params = s.params ∧ s'.bank = s.bank ∧ s'.moduleAcc = s.moduleAcc ∧ s'.collateralAcc = s.collateralAcc ∧
+    s'.polAcc = s.polAcc ∧ s'.feeAcc = s.feeAcc ∧ s'.blocked = s.blocked ∧ s'.canon = s.canon := by
+  intro s'
+  have e : s' = Storage.storeOrdered s := C19_storage_roundtrip s h
+  rw [e]; unfold Storage.storeOrdered
+  refine ⟨get_inStoreOrder _ h.idx.wfFiles, ?_, get_inStoreOrder _ h.idx.wfProofs, get_inStoreOrder _ h.wfProviders,
+    get_inStoreOrder _ h.wfPayinfo, get_inStoreOrder _ h.wfCollateral, get_inStoreOrder _ h.wfGauges,
+    get_inStoreOrder _ h.wfAttests, get_inStoreOrder _ h.wfReports, inStoreOrder_perm _ _, Storage.files2_perm s h,
+    inStoreOrder_perm _ _, inStoreOrder_perm _ _, inStoreOrder_perm _ _, inStoreOrder_perm _ _, inStoreOrder_perm _ _,
+    inStoreOrder_perm _ _, inStoreOrder_perm _ _, rfl, rfl, rfl, rfl, rfl, rfl, rfl, rfl⟩
+  intro k
+  rw [get_inStoreOrder _ h.idx.wfFiles, h.idx.same]
+
+theorem C19_storage_export_idempotent (s : Canine.Storage.State) (h : Storage.Inv s) (hr : Storage.RawInv s) :
+    Storage.exportGenesis (Storage.initGenesis (Storage.blank s) (Storage.exportGenesis s)) = Storage.exportGenesis s := by
+  rw [C19_storage_roundtrip s h, Storage.export_storeOrdered s h hr]
+
+theorem C19_storage_validate_accepts_export (s : Canine.Storage.State) (h : Storage.Inv s) (hr : Storage.RawInv s)
+    (hp : 0 ≤ s.params.polRatio ∧ 0 ≤ s.params.referralCommission) :
+    Storage.validate (Storage.exportGenesis s) = true :=
+  Storage.validate_export s h hr (by simp [Storage.paramsValid, hp.1, hp.2])
+
+theorem C19_storage_queries_preserved (s : Canine.Storage.State) (h : Storage.Inv s) (hr : Storage.RawInv s)
+    (now : Int) (q : Canine.Storage.Query.Q) :
+    Canine.Storage.Query.run (Storage.initGenesis (Storage.blank s) (Storage.exportGenesis s)) now q =
+      Canine.Storage.Query.run s now q := by
+  rw [C19_storage_roundtrip s h, Storage.run_storeOrdered s h hr now q]
+
+/-- the C17 index invariant itself survives the round trip (both indexes rebuilt by the same `SetFile`) -/
+theorem C19_storage_index_invariant_preserved (s : Canine.Storage.State) (h : Storage.Inv s) :
+    Canine.Storage.IndexInv (Storage.initGenesis (Storage.blank s) (Storage.exportGenesis s)) := by
+  obtain ⟨g1, g2, g3, _, _, _, _, _, _, p1, p2, p3, _⟩ := C19_storage_roundtrip_records s h
+  refine ⟨wf_of_perm p1.symm h.idx.wfFiles, wf_of_perm p2.symm h.idx.wfFiles2, wf_of_perm p3.symm h.idx.wfProofs, ?_, ?_⟩
+  · intro k; rw [g1, g2]; exact h.idx.same k
+  · intro k f hf
+    rw [g1] at hf
+    exact (h.idx.ok k f hf).congr (fun pk _ _ => g3 pk)
+
+
+/-! ## Non-vacuity: the hypotheses hold on concrete states with two or more records per kind
+(none of them listed in iterator order, so `storeOrdered` really reorders) -/
+namespace C19Ex
+
+def oracleSt : Canine.Oracle.State :=
+  { feeds := [("jklprice", { owner := "jkl1a", data := "{\"price\":\"0.3\"}", lastUpdate := 5, name := "jklprice" }),
+              ("atomprice", { owner := "jkl1b", data := "", lastUpdate := 7, name := "atomprice" })],
+    bank := [], moduleAcc := "oracle", deposit := some "jkl1deposit", blocked := [] }
+
+example : Oracle.Inv oracleSt := ⟨by unfold AMap.WF; decide, by unfold Keyed; decide⟩
+
+def filetreeSt : Canine.Filetree.State :=
+  { files := [(("ff01", "0a"), { address := "ff01", owner := "0a", contents := "c1", viewers := .map [("v1", "k1")],
+                                  editors := .null, tracking := "t1" }),
+              (("aa02", "0b"), { address := "aa02", owner := "0b", contents := "c2", viewers := .raw "x",
+                                  editors := .map [], tracking := "t2" })],
+    pubkeys := [("jkl1z", "pkz"), ("jkl1a", "pka")] }
+
+example : Filetree.Inv filetreeSt := ⟨by unfold AMap.WF; decide, by unfold Keyed; decide, by unfold AMap.WF; decide⟩
+example : Filetree.RawInv filetreeSt := by unfold Filetree.RawInv RawNodup; decide
+
+def notifSt : Canine.Notif.State :=
+  { store := [(Canine.Notif.notifKey "jkl1bob" "jkl1alice" 20,
+                .notif { to := "jkl1bob", sender := "jkl1alice", time := 20, contents := "{}", priv := "" }),
+              (Canine.Notif.blockKey "jkl1bob" "jkl1carol", .block "jkl1bob" "jkl1carol"),
+              (Canine.Notif.notifKey "jkl1bob" "jkl1alice" 10,
+                .notif { to := "jkl1bob", sender := "jkl1alice", time := 10, contents := "{\"a\":1}", priv := "p" }),
+              (Canine.Notif.blockKey "jkl1alice" "jkl1dave", .block "jkl1alice" "jkl1dave")] }
+
+example : Notif.Inv notifSt := by
+  refine ⟨by unfold AMap.WF; decide, ?_⟩
+  intro kv hm
+  simp only [notifSt, List.mem_cons, List.not_mem_nil, or_false] at hm
+  rcases hm with rfl | rfl | rfl | rfl
+  · exact Or.inl ⟨_, rfl, rfl⟩
+  · exact Or.inr ⟨_, _, rfl, rfl⟩
+  · exact Or.inl ⟨_, rfl, rfl⟩
+  · exact Or.inr ⟨_, _, rfl, rfl⟩
+
+example : Notif.RawInv notifSt := by unfold Notif.RawInv RawNodup; decide
+
+def rnsSt : Canine.Rns.State :=
+  { names := [("zed.jkl", { name := "zed", tld := "jkl", expires := 900, value := "jkl1a", data := "{}", locked := 0,
+                             subs := [{ name := "www", value := "jkl1b", data := "", tld := "jkl", expires := 900 }] }),
+              ("alice.ibc", { name := "alice", tld := "ibc", expires := 800, value := "jkl1b", data := "{}", locked := 5, subs := [] })],
+    forsale := [("zed.jkl", { name := "zed.jkl", owner := "jkl1a", priceRaw := "5ujkl", price := some ("ujkl", 5) }),
+                ("alice.ibc", { name := "alice.ibc", owner := "jkl1b", priceRaw := "x", price := none })],
+    bids := [("jkl1bzed.jkl", { index := "jkl1bzed.jkl", name := "zed.jkl", bidder := "jkl1b", priceRaw := "3ujkl", price := some [("ujkl", 3)] }),
+             ("jkl1aalice.ibc", { index := "jkl1aalice.ibc", name := "alice.ibc", bidder := "jkl1a", priceRaw := "4ujkl", price := some [("ujkl", 4)] })],
+    inits := [("jkl1b", true), ("jkl1a", true)],
+    primary := [("jkl1b", "alice.ibc"), ("jkl1a", "zed.jkl")],
+    bank := [], blocked := [], moduleAcc := "rns", polAcc := "pol", canon := [("jkl1a", "jkl1a"), ("JKL1A", "jkl1a")] }
+
+example : Rns.Inv rnsSt :=
+  ⟨by unfold AMap.WF; decide, by unfold AMap.WF; decide, by unfold AMap.WF; decide, by unfold AMap.WF; decide,
+   by unfold AMap.WF; decide, by unfold Keyed; decide, by unfold Keyed; decide, by unfold Keyed; decide⟩
+
+def mintSt : Mint.Store :=
+  { params := { tokensPerBlock := 4200000, mintDecrease := 6, stakerRatio := 80, devGrantsRatio := 8, providerRatio := 12 },
+    minted := [(Mint.mintedKey 9, { height := 9, minted := 4199999, denom := "ujkl" }),
+               (Mint.mintedKey 10, { height := 10, minted := 4199998, denom := "ujkl" })],
+    height := 10 }
+
+theorem mintSt_inv : Mint.Inv mintSt := ⟨by unfold AMap.WF; decide, by unfold Keyed; decide, by decide⟩
+example : Canine.Mint.validParams mintSt.params := by unfold Canine.Mint.validParams; decide
+
+/-- the finding on a concrete store: the record of height 10 survives, the record of height 9 is gone -/
+example : AMap.get (Mint.initGenesis (Mint.blank mintSt) (Mint.exportGenesis mintSt)).minted (Mint.mintedKey 10)
+    = some { height := 10, minted := 4199998, denom := "ujkl" } :=
+  C19_jklmint_last_record_survives' mintSt mintSt_inv _ (by decide)
+example : AMap.get mintSt.minted (Mint.mintedKey 9) = some { height := 9, minted := 4199999, denom := "ujkl" } := by decide
+example : AMap.get (Mint.initGenesis (Mint.blank mintSt) (Mint.exportGenesis mintSt)).minted (Mint.mintedKey 9) = none :=
+  C19_jklmint_history_lost mintSt mintSt_inv _ (by decide)
+/-- restarted at height 0 (`--for-zero-height`), block 1 finds no previous emission -/
+example : Mint.lastOf { Mint.initGenesis (Mint.blank mintSt) (Mint.exportGenesis mintSt) with height := 0 } 1 = none :=
+  C19_jklmint_restart_at_other_height_forgets mintSt mintSt_inv 0 (by decide)
+/-- so on this store the round trip is NOT the identity -/
+example : Mint.initGenesis (Mint.blank mintSt) (Mint.exportGenesis mintSt) ≠ mintSt := by
+  intro e
+  have h := C19_jklmint_history_lost mintSt mintSt_inv (Mint.mintedKey 9) (by decide)
+  rw [e] at h
+  exact absurd h (by decide)
+
+open Canine.Storage in
+def k1 : FKey := ("bb", "jkl1owner", 7)
+open Canine.Storage in
+def k2 : FKey := ("aa", "jkl1other", 3)
+open Canine.Storage in
+def file1 : File :=
+  { merkle := "bb", owner := "jkl1owner", start := 7, expires := 0, fileSize := 100, proofInterval := 50,
+    proofType := 0, proofs := [("jkl1p1", k1), ("jkl1p2", k1)], maxProofs := 3, note := "{}" }
+open Canine.Storage in
+def file2 : File :=
+  { merkle := "aa", owner := "jkl1other", start := 3, expires := 900, fileSize := 5, proofInterval := 50,
+    proofType := 0, proofs := [("jkl1p1", k2)], maxProofs := 3, note := "" }
+open Canine.Storage in
+def rec' (prover : String) (k : FKey) : Proof :=
+  { prover := prover, merkle := k.1, owner := k.2.1, start := k.2.2, lastProven := 8, chunkToProve := 0 }
+open Canine.Storage in
+def form (prover : String) (k : FKey) : Form :=
+  { prover := prover, merkle := k.1, owner := k.2.1, start := k.2.2, attestations := [("jkl1p2", false), ("jkl1p3", true)] }
+open Canine.Storage in
+def prov (a : String) : Provider :=
+  { address := a, ip := "https://" ++ a, totalspace := "1000", burned := some 0, creator := a, keybase := "", claimers := [] }
+
+open Canine.Storage in
+def storageSt : State :=
+  { files := [(k1, file1), (k2, file2)], files2 := [(k1, file1), (k2, file2)],
+    proofs := [(("jkl1p1", k1), rec' "jkl1p1" k1), (("jkl1p2", k1), rec' "jkl1p2" k1), (("jkl1p1", k2), rec' "jkl1p1" k2)],
+    providers := [("jkl1p2", prov "jkl1p2"), ("jkl1p1", prov "jkl1p1"), ("jkl1p3", prov "jkl1p3")],
+    payinfo := [("jkl1owner", { startT := 0, endT := 100, spaceAvailable := 1000, spaceUsed := 300, address := "jkl1owner" }),
+                ("jkl1other", { startT := 0, endT := 50, spaceAvailable := 10, spaceUsed := 0, address := "jkl1other" })],
+    collateral := [("jkl1p2", 1000), ("jkl1p1", 1000)],
+    gauges := [("ff", { id := "ff", startT := 0, endT := 10, coins := [("ujkl", 5)], account := "g-ff" }),
+               ("0a", { id := "0a", startT := 0, endT := 20, coins := [("ujkl", 7)], account := "g-0a" })],
+    attests := [(("jkl1p1", k1), form "jkl1p1" k1), (("jkl1p1", k2), form "jkl1p1" k2)],
+    reports := [(("jkl1p2", k1), form "jkl1p2" k1), (("jkl1p1", k2), form "jkl1p1" k2)],
+    bank := [],
+    params := { proofWindow := 50, checkWindow := 100, chunkSize := 1024, pricePerTbPerMonth := 8, collateralPrice := 1000, attestFormSize := 3, attestMinToPass := 2, referralCommission := 25, polRatio := 40 },
+    moduleAcc := "storage", collateralAcc := "collateral", polAcc := "pol", feeAcc := "fee", blocked := [] }
+
+open Canine.Storage in
+theorem storageSt_index : IndexInv storageSt := by
+  refine ⟨by unfold AMap.WF; decide, by unfold AMap.WF; decide, by unfold AMap.WF; decide, fun _ => rfl, ?_⟩
+  intro k f hf
+  have hm := AMap.mem_of_get hf
+  simp only [storageSt, List.mem_cons, List.not_mem_nil, or_false, Prod.mk.injEq] at hm
+  rcases hm with ⟨rfl, rfl⟩ | ⟨rfl, rfl⟩
+  · refine ⟨rfl, by decide, by decide, ?_⟩
+    intro pk hpk
+    simp only [file1, List.mem_cons, List.not_mem_nil, or_false] at hpk
+    rcases hpk with rfl | rfl
+    · exact ⟨rfl, rec' "jkl1p1" k1, by decide, rfl, rfl⟩
+    · exact ⟨rfl, rec' "jkl1p2" k1, by decide, rfl, rfl⟩
+  · refine ⟨rfl, by decide, by decide, ?_⟩
+    intro pk hpk
+    simp only [file2, List.mem_cons, List.not_mem_nil, or_false] at hpk
+    rcases hpk with rfl
+    exact ⟨rfl, rec' "jkl1p1" k2, by decide, rfl, rfl⟩
+
+example : Storage.Inv storageSt :=
+  ⟨storageSt_index, by unfold AMap.WF; decide, by unfold AMap.WF; decide, by unfold AMap.WF; decide,
+   by unfold AMap.WF; decide, by unfold AMap.WF; decide, by unfold AMap.WF; decide,
+   by unfold Keyed; decide, by unfold Keyed; decide, by unfold Keyed; decide, by unfold Keyed; decide,
+   by unfold Keyed; decide, by unfold Keyed; decide⟩
+
+example : Storage.RawInv storageSt :=
+  ⟨by unfold RawNodup; decide, by unfold RawNodup; decide, by unfold RawNodup; decide, by unfold RawNodup; decide,
+   by unfold RawNodup; decide⟩
+
+example : 0 ≤ storageSt.params.polRatio ∧ 0 ≤ storageSt.params.referralCommission := by
+  simp only [storageSt]; decide
+
+end C19Ex
 
 end Canine.Genesis
